@@ -80,60 +80,45 @@ def rule_break(ctx):
 def rule_decompose(ctx):
     fx = ctx.facts
     ev = sym.Eval(fx, inline_depth=0)
-    ind = fx.fn("Problem::decompose_independent")
-    v = ev.function(ind)
+    from .. import ftpl, leaves
     SELF = ("param", "self")
-    enum = ("call", "Iterator::enumerate", (("call", "Problem::conjectures", (SELF,)),))
-    ok = v[:2] == ("call", "Iterator::map") and v[2][0] == enum and v[2][1][0] == "closure"
-    if ok:
-        g = dict(v[2][1][2][2])
-        ok = g.get("formulas") == ("upd", ("call", "Problem::axioms", (SELF,)), "push", (("param", "c"),)) and g.get("interpretation") == ("place", "self.interpretation") \
-            and g.get("name") == ("format", "{}_{i}", (("place", "self.name"), ("param", "i")))
-    ctx.add("TPL", "decompose:independent", ok, ctx.site(ind), "independent: one problem per conjecture c_k = all axioms + c_k, named <name>_<k>", construct=v)
+    CONJ = ("call", "Problem::conjectures", (SELF,))
+    AX = ("call", "Problem::axioms", (SELF,))
+
+    def canon(b_):
+        return leaves.strip_acc(sym.anon_format(ftpl.canon_iter(sym.Eval(fx, inline_depth=0).function(b_))))
+
+    def problem(formulas):
+        return ("ctor", "Problem", (("formulas", formulas), ("interpretation", ("place", "self.interpretation")),
+                                    ("name", ("format", "{}_{}", (("place", "self.name"), ("idx", CONJ))))))
+    ind = fx.fn("Problem::decompose_independent")
+    v = canon(ind)
+    ref = ("upd", ("call", "Vec::new", ()), "push", (problem(("upd", AX, "push", (("at", CONJ),))),))
+    ctx.add("TPL", "decompose:independent", v == ref, ctx.site(ind), "independent: one problem per conjecture c_k = all axioms + c_k, named <name>_<k>", construct=v)
     seq = fx.fn("Problem::decompose_sequential")
-    v = ev.function(seq)
-    ok = v[:2] == ("call", "Iterator::map") and v[2][0] == enum and v[2][1][0] == "closure"
-    ctx.add("TPL", "decompose:sequential-order", ok, ctx.site(seq), "sequential: conjectures are taken in order with their enumerate index")
-    # the closure body, statement by statement
-    cls = [n for n in hq.nodes(seq["body"], "Closure")]
+    v = canon(seq)
+    ok = v[:1] == ("upd",) and v[1] == ("call", "Vec::new", ()) and v[2] == "push" and len(v[3]) == 1 and v[3][0][:2] == ("ctor", "Problem")
+    g = dict(v[3][0][2]) if ok else {}
+    ctx.add("TPL", "decompose:sequential-order", ok and g.get("name") == ("format", "{}_{}", (("place", "self.name"), ("idx", CONJ))) and g.get("interpretation") == ("place", "self.interpretation"),
+            ctx.site(seq), "sequential: one problem per conjecture, in order, named <name>_<k> with its enumerate index", construct=None if ok else v)
+    # the formulas of the k-th problem: the running list (axioms, then every earlier conjecture) after (1) re-labelling its last element as
+    # axiom and (2) appending the k-th conjecture
+    f = g.get("formulas")
+    relabel = ("upd", ("proj", ("call", "slice::last_mut", (AX,)), (("Option::Some", "0"),)), "assign-field:last.role", (("ctor", "Role::Axiom", ()),))
     good = False
-    detail = "closure not found"
-    if len(cls) == 1 and cls[0]["body"].get("k") == "Block":
-        st = hq.stmts_of(cls[0]["body"])
-        lets = hq.lets(seq["body"])
-        acc = lets.get("formulas", [None])[0]
-        acc_id = acc["pat"]["id"] if acc else None
-        acc_init_ok = acc is not None and (callee(strip(acc["init"])) or "").endswith("Problem::axioms")
-        kinds = []
-        for s in st:
-            x = hq.stmt_expr(s)
-            if x is None:
-                continue
-            x0 = strip(x) if x.get("k") in ("DropTemps", "Use") else x
-            if x0.get("k") == "If":
-                c = strip(x0["cond"])
-                if c.get("k") == "Let" and hq.pat_key(c["pat"]) == "Option::Some(_)" and strip(c["init"]).get("k") == "MethodCall" and strip(c["init"])["method"] == "last_mut" \
-                        and local_id_of(strip(c["init"])["recv"]) == acc_id:
-                    lid = [p["id"] for p in pat_bindings(c["pat"])]
-                    asg = [n for n in walk(x0["then"]) if n.get("k") == "Assign"]
-                    if len(asg) == 1 and hq.field_path(asg[0]["l"]) and hq.field_path(asg[0]["l"]).endswith(".role") and local_id_of(strip(asg[0]["l"])["e"]) in lid \
-                            and hq.const_of(asg[0]["r"]) == ("variant", "Role", "Axiom"):
-                        kinds.append("relabel-last-as-axiom")
-                        continue
-                kinds.append("if?")
-            elif x0.get("k") == "MethodCall" and x0["method"] == "push" and local_id_of(x0["recv"]) == acc_id:
-                cp = {p["name"] for q in cls[0]["params"] for p in pat_bindings(q)}
-                kinds.append("push-conjecture" if local_of(x0["args"][0]) in cp else "push?")
-            elif x0.get("k") == "Struct" and hq.last(x0["res"].get("adt", "")) == "Problem":
-                f = {ff["name"]: ff["e"] for ff in x0["fields"]}
-                ok_f = strip(f["formulas"]).get("k") == "Path" or (strip(f["formulas"]).get("k") == "MethodCall")
-                kinds.append("problem(formulas.clone())" if local_id_of(f["formulas"]) == acc_id else "problem?")
-            else:
-                kinds.append(x0.get("k"))
-        detail = "%s; accumulator initialised from self.axioms(): %s" % (kinds, acc_init_ok)
-        good = kinds == ["relabel-last-as-axiom", "push-conjecture", "problem(formulas.clone())"] and acc_init_ok
-    ctx.add("TPL", "decompose:sequential-body", good, ctx.site(seq),
-            "sequential: the previous conjecture is re-labelled axiom, the next conjecture is appended, the problem is a copy of the list so far: " + detail)
+    detail = sym.pretty(f)[:400] if f is not None else "no formulas field"
+    if isinstance(f, tuple) and f[:1] == ("upd",) and f[2] == "push" and f[3] == (("at", CONJ),):
+        base = f[1]
+        # base: the accumulator (started from self.axioms()) with its last element's role set to Axiom when there is a last element
+        if isinstance(base, tuple) and base[:1] == ("phi",) and base[1][:1] == ("if",) and base[1][1] == ("iflet", "Option::Some(_)", ("call", "slice::last_mut", (AX,))):
+            arms_ = dict(base[2])
+            then = arms_.get("then")
+            assigns = [x for x in sym.subterms(then) if isinstance(x, tuple) and x[:1] == ("upd",) and str(x[2]).startswith("assign-field:")]
+            good = len(assigns) == 1 and assigns[0][2].endswith(".role") and assigns[0][3] == (("ctor", "Role::Axiom", ()),) and \
+                assigns[0][1] == ("proj", ("call", "slice::last_mut", (AX,)), (("Option::Some", "0"),))
+    carried = any(isinstance(x, tuple) and x[:1] == ("acc",) for x in sym.subterms(sym.anon_format(ftpl.canon_iter(sym.Eval(fx, inline_depth=0).function(seq)))))
+    ctx.add("TPL", "decompose:sequential-body", good and carried, ctx.site(seq),
+            "sequential: the previous conjecture is re-labelled axiom, the next conjecture is appended to the running list (started from self.axioms()), the problem is a copy of the list so far: " + detail)
     # axioms()/conjectures() filter by role, preserving order
     for name, role in (("axioms", "Axiom"), ("conjectures", "Conjecture")):
         b = fx.fn("Problem::" + name)
